@@ -23,7 +23,7 @@ CHECKS = {
         category="other",
         text="Substitution clause decided exactly: the closure's decision table (ccp, 64 setting subsets x 4 feasible memberships) equals the "
              "documented precedence; captured variables are traced to the settings written by the public setters; the pass runs whenever a class "
-             "option is on; the char handed to the predicates ranges over all chars of every stored string (CLS-4). The language clause (tokens survive the automaton pipeline) is not decided.",
+             "option is on; the char handed to the predicates ranges over all chars of every stored string (CLS-4); no memo table shares work between test cases with a lossy key (MEMO-1); class tokens keep their backslash while literal backslashes are escaped for every entry (ESC-1/2) and never share a trie edge with literal text (LBL-2). The language clause (tokens survive the automaton pipeline) is not decided.",
         design_ref="DESIGN.md §4 C03",
         note=TRUST + "Necessary-and-sufficient for the per-code-point substitution, necessary only for the language statement.",
         technique="static analysis: path-splitting constant propagation + control dependence + setter effect summaries",
@@ -33,7 +33,7 @@ CHECKS = {
         text="Every source of nondeterminism of safe Rust is shown absent or neutralised in the functions reachable from build(): hash-order taint "
              "(type-recognised unordered iterators and all their consumers), ambient sources (time/env/thread/fs/rand/addresses), statics, unsafe; "
              "input canonicalisation (sort, dedup, total-order comparator before any consumer); call history (settings by shared reference to a Freeze "
-             "type, write-only setters, who-may-write) ; thorough adds compile-pass/compile_fail witnesses.",
+             "type, write-only setters, who-may-write), no mutable global (lazily initialised statics with a Mutex/RefCell/atomic payload included) and no memo table keyed by less than what it memoises (MEMO-1); thorough adds compile-pass/compile_fail witnesses.",
         design_ref="DESIGN.md §4 C10",
         note=TRUST + "Determinism of the dependencies (petgraph, ndarray, itertools, regex) is assumed; one audited exception table entry "
                      "(regrouped sort in create_ranges_of_repetitions) is fingerprinted structurally.",
@@ -43,7 +43,7 @@ CHECKS = {
         category="other",
         text="Panic discipline decided statically: the three documented panics are exact (single guard, documented message, other path writes); no explicit "
              "panic and no unwrap of a run-time Result is reachable from build(); the two bounds guards dominate their sites; an inventory of the remaining "
-             "panic-capable sites is evidence only; the automaton's graph index type is at least 32 bits wide (PAN-6). That the printed pattern is accepted by the regex crate is not decided.",
+             "panic-capable sites is evidence only; the automaton's graph index type is at least 32 bits wide (PAN-6); no overflow-checked arithmetic on a threshold setting (PAN-7); escaping descends into nested repetitions on every path (ESC-3). That the printed pattern is accepted by the regex crate is not decided.",
         design_ref="DESIGN.md §4 C07",
         note=TRUST + "Option::unwrap/indexing/arithmetic sites reachable from build() are enumerated, not proven unreachable.",
         technique="static analysis: call-graph reachability, constant propagation on the documented panics, dominator-based guard rules",
@@ -53,7 +53,7 @@ CHECKS = {
         text="Anchor emission decided exactly by constant propagation over the printer (all abstract paths: '^'/'$' iff enabled, nothing rewrites them); "
              "the search clause is decided only as mechanism: alternations are always ordered longest-first, the order self-check covers every "
              "configuration without '$' and judges the match extent, all stages of the entry function consume the same converted clusters (PIPE-1) and the one "
-             "alternation that is not self-checked afterwards is ordered by matched chars (ALT-2).",
+             "alternation that is not self-checked afterwards is ordered by matched chars (ALT-2), and the self-check examines every test case (SCK-3).",
         design_ref="DESIGN.md §4 C08",
         note=TRUST + "That every search spans the whole test case for all inputs is not decided (needs the run-time automaton).",
         technique="static analysis: path-splitting constant propagation with string templates, control dependence, provenance of the self-check verdict",
@@ -72,7 +72,7 @@ CHECKS = {
         text="Wiring decided exactly: each of the 17 setter calls is control dependent on the Cli field of its documented flag (pre-expansion attributes), "
              "threshold/surrogate values come from their own flags, stdout receives build()'s value plus newline, exit 1 only after stderr; the three "
              "line channels use lines() with identity maps; the zero-rejecting value parser guards both thresholds; no panic-on-unusable-input construct "
-             "is reachable from main.",
+             "is reachable from main; the text of a channel is not rewritten before it is split (CLI-3 producer side); the only clap relations between arguments are the documented ones (CLI-6).",
         design_ref="DESIGN.md §4 C12",
         note=TRUST + "clap's own parsing and the operating system's delivery of stdout/stderr are trusted; actual process output is not observed.",
         technique="static analysis: control dependence against pre-expansion clap attributes, origin trees of printed values, constant propagation of the value parser",
@@ -81,7 +81,7 @@ CHECKS = {
         category="other",
         text="Necessary conditions only: finality is transferred per state when the automaton is rebuilt and every inserted test case marks its last "
              "state final; every regex metacharacter (oracle: regex_syntax::is_meta_character of the locked version) is escaped per occurrence in literals "
-             "and in bracket classes; the single-code-point test that licenses bracket classes and group omission counts chars and measures every unit (CNT-1/2). Breaking any of them makes some test case unmatched or the pattern invalid. That minimisation, elimination and "
+             "and in bracket classes; the single-code-point test that licenses bracket classes and group omission counts chars and measures every unit (CNT-1/2); the partition refinement has the shape of Hopcroft's algorithm and runs to the fixpoint (MIN-1..6); reader and remover of common prefixes/suffixes agree on positions (SUB-1); edge labels are identified by their entries, not their joined text (LBL-1/2), escaping reaches every entry and every nesting level on every path (ESC-2/3). Breaking any of them makes some test case unmatched or the pattern invalid. That minimisation, elimination and "
              "printing preserve membership is not decided.",
         design_ref="DESIGN.md §4 C01",
         note=TRUST + "One genuine defect is recorded as a known finding (empty string loses finality: FIN-1) because its repair contradicts three pinned tests.",
@@ -90,7 +90,7 @@ CHECKS = {
     "C05": dict(
         category="other",
         text="Notation clauses decided by constant propagation over the quantifier printer on all abstract paths ({min,max} iff min<max, {min} iff min>1, group "
-             "only around quantified multi-code-point units, decision not taken on the printed form; an operand under a quantifier keeps its outer group: PRC-2), the label guard of the minimiser, and trie-edge "
+             "only around quantified multi-code-point units, decision not taken on the printed form; an operand under a quantifier keeps its outer group: PRC-2; entries of a grapheme are only mapped element-wise: CHR-1; escaping descends as deep as the printer: ESC-3; no memo table with a lossy key: MEMO-1), the label guard of the minimiser, and trie-edge "
              "immutability during insertion (today violated: known finding). Language equality with/without the option is not decided.",
         design_ref="DESIGN.md §4 C05",
         note=TRUST + "TRI-1 is a genuine defect recorded as a known finding (no small repair).",
@@ -100,7 +100,8 @@ CHECKS = {
         category="other",
         text="Constant and structural clauses: the set of code points sent to the surrogate helper is exactly U+10000..=U+10FFFF (read from the range constant), the "
              "per-character dispatch is ASCII/identity, astral+surrogates/helper (\\u{hex} per UTF-16 unit), else char::escape_unicode; every literal is escaped on "
-             "every path before printing with the Literal's own flags.",
+             "every path before printing with the Literal's own flags; value-flow shows both flags only ever carry their own setting, also in the recursive call (PLB-1); an escaped "
+             "multi-sequence unit keeps its group under a quantifier (PRC-2).",
         design_ref="DESIGN.md §4 C11",
         note=TRUST + "Pure-ASCII output for all inputs, re-decodability and language equality are not decided.",
         technique="static analysis: constant propagation of the dispatch, interval reading of range constants, must-pass-through on the literal printer",
@@ -129,7 +130,7 @@ CHECKS = {
         text="Printer clauses only (each necessary: breaking one yields ^a|b$-style over-matching for some input): precedence table order, group iff "
              "lower precedence and not a single code point with the right operands, outer group iff alternation - decided on all abstract paths; class ranges only over "
              "consecutive scalars; inside union(): class merge only under single-code-point guards, `x?` only from the non-empty side and never `*` (abstract paths of union), "
-             "prefix/suffix re-attached on the right side; the state elimination has the schema of the algebraic method; the single-code-point counter counts chars. Whether the "
+             "prefix/suffix re-attached on the right side; the state elimination has the schema of the algebraic method; the single-code-point counter counts chars; concatenate keeps operand order (CON-1/REV-1); the equation system is the automaton (BRZ-0: rows by traversal from the initial state, b[i]=eps iff final, a[i,pos(target)]=label, no accumulator across columns); the class printer emits members only (TOK-1); MIN-1..6 and SUB-1 as in C01. Whether the "
              "minimiser, union() factoring and remove_common_substring preserve the language is NOT decided.",
         design_ref="DESIGN.md §4 C02",
         note=TRUST + "The algorithmic core of exactness is out of reach of this family; see DESIGN.md §0.",
@@ -139,7 +140,7 @@ CHECKS = {
         category="other",
         text="Component-level decision: for all 18 component variants and flag valuations the coloured rendering minus SGR sequences equals the plain rendering "
              "(string templates); the SGR syntax written agrees with the pattern that strips it; the indenter decides on the colour-stripped line; every colour "
-             "argument comes from the colour setting only.",
+             "argument comes from the colour setting only; no coloured rendering puts a line break inside a colour span (COL-4: the indenter drops empty lines before stripping).",
         design_ref="DESIGN.md §4 C15",
         note=TRUST + "Whole-output equality additionally relies on the component decomposition of the printers (PLB-1) and is not executed.",
         technique="static analysis: sibling-implementation agreement by constant propagation with string templates; provenance of guard predicates; value flow",
@@ -156,8 +157,8 @@ CHECKS = {
     "C17": dict(
         category="other",
         text="Delegation decided on src/wasm.rs type-checked for the host: all 16 setters have camelCase siblings with equal effect summaries returning a clone; "
-             "thresholds store only values >= 1 else Err(JsValue(library message)); from() reaches the panicking library constructor only for a non-empty list; "
-             "build() returns the library's build() unchanged.",
+             "thresholds store only values >= 1 else Err(JsValue(library message)); from() reaches the panicking library constructor only for a non-empty list and hands it every string of the JS array "
+             "(one as_string conversion per element, nothing filtered: WSM-5); build() returns the library's build() unchanged.",
         design_ref="DESIGN.md §4 C17",
         note=TRUST + "No wasm32 target exists in the sandbox: the bodies are analysed under the host target; #[wasm_bindgen] glue is trusted.",
         technique="static analysis: effect-summary agreement of sibling implementations via constant propagation",
